@@ -313,6 +313,12 @@ _public_ int m_mod_ps_subscribe(m_mod_t *mod, const char *topic, m_src_flags fla
                     old_sub->userptr = userptr;
                     return 0;
                 }
+                /*
+                 * Different flags: the subscription is replaced.
+                 * Remove the old one first: updating the map entry in place would keep
+                 * the old subscription's topic (freed with it, when dup'd) as key.
+                 */
+                m_map_remove(mod->subscriptions, topic);
             }
         }
 
